@@ -410,6 +410,17 @@ def judgeState (s : St) (es : List Ent) (a : Ans) : String :=
       let rs := resolvedF par f.dd
       let eqB := eqProbBranch par f.dd
       let sentinel := f.fam == .gamma && es.any (fun e => e.fn == "Q" && e.r == -1)
+      -- the situation of the state, for the clauses about class values:
+      --  median   : median-valued classes of the equal-probability scheme (rescaled, clamped at the ends)
+      --  resolved : the comparator precision does not interfere (`resolved` for the equal-probability
+      --             values, `eqIntResolved` for the equal-interval ones): the theorems apply
+      --  narrow   : the domain is narrower than four separation steps per class
+      let med := eqB && f.dd.median && !fallback
+      let resolvedHere := if eqB then rs else eqIntResolved f.dd
+      let valueClause (base : String) : String :=
+        if med then (if rs then base ++ "_median" else base ++ "_median_unresolved")
+        else if resolvedHere then base
+        else if narrowDom f.dd then base ++ "_unresolved_narrow" else base ++ "_unresolved"
       if !hasPar then firstFail [("values_strict_mono", valuesStrictMono d)] else
       firstFail (
         [("search_parent_quantile_sentinel", !sentinel),
@@ -425,14 +436,15 @@ def judgeState (s : St) (es : List Ent) (a : Ans) : String :=
          ("probs_sum_one", probsSumOne 1e-9 d || !(eqB || wc || !(cond > 0))),
          ("values_strict_mono", valuesStrictMono d),
          ("probs_nonneg", probsNonneg d || !(eqB || wc || !(cond > 0))),
-         ("equal_mass", !eqB || equalMass d)] ++
+         ("equal_mass", !eqB || equalMass d),
+         -- **every state is judged on its class values** (audit round 2): the clause name says in which
+         -- situation the state is — plain: the theorem applies, a failure is a violation; `_median`,
+         -- `_unresolved`, `_narrow`: situations where the clause is false of the code (known findings)
+         (valueClause "value_in_domain", valuesInDom d)] ++
+        (if wc || fallback || !eqB then
+          [(valueClause "value_in_own_class", valuesInClass d)] else []) ++
         (if wc || fallback then
-          [("bounds_monotone_in_domain", boundsMonoInDom d),
-           ("value_in_own_class", !(rs && !(eqB && f.dd.median && !fallback)) || valuesInClass d),
-           ("value_in_own_class_median", !(rs && eqB && f.dd.median && !fallback) || valuesInClass d),
-           -- outside the guard `resolved` (boundary adjustment, separation of equal values) the clause is
-           -- judged too: its failures are the known finding C09-separated-value-outside-class
-           ("value_in_own_class_unresolved", rs || !eqB || (f.dd.median && !fallback) || valuesInClass d)]
+          [("bounds_monotone_in_domain", boundsMonoInDom d)]
          else []) ++
         -- theorem `when_possible_distinct_bounds` (in doubles: classes wider than the spacing of the doubles)
         (if f.dd.scheme == 3 && (f.dd.dom.hi - f.dd.dom.lo) / Float.ofNat f.dd.n > 1e-9 * (1 + absF f.dd.dom.lo + absF f.dd.dom.hi)
